@@ -21,6 +21,7 @@ def dispatch : String → Option (String → String)
   | "C07" => some (fun l => if l.startsWith "(c07kt" then KtNative.runLine l else DartKt.runLine l)
   | "C08" => some JsLayout.runLine
   | "C09" => some Idents.runLine
+  | "C10" => some JsSlot.runLine
   | "C11" => some EnumGen.runLine
   | "C12" => some Write.runLine
   | "C17" => some Config.runLine
